@@ -401,6 +401,23 @@ pub fn sites(tier: Tier) -> Vec<Site> {
             }
         }
         let followers = Arc::new(followers);
+        {
+            // ... and every ordered pair of accepted packets
+            let followers = followers.clone();
+            let n2 = (followers.len() * followers.len()) as u64;
+            sites.push(Site::new("encode-pairs", n2,
+                "every ordered pair of B1 packets (every kind, both modes) encoded back to back on one thread: the second frame is the one the packet has on its own",
+                move |i, acc| {
+                    acc.eval();
+                    let (na, ca, pa, _) = &followers[(i as usize) / followers.len()];
+                    let (nb, cb, pb, own) = &followers[(i as usize) % followers.len()];
+                    let _ = guard(|| Codec::new(mode_of(*ca)).encode(pa).map(|b| b.len()));
+                    match guard(|| Codec::new(mode_of(*cb)).encode(pb).map(|b| b.to_vec())) {
+                        Ok(Ok(b)) if b == *own => { acc.class("pair-agrees"); acc.nontrivial(); },
+                        other => acc.violate(i, format!("C03|{nb}|frame-depends-on-the-previous-encode"), format!("{nb} encoded right after {na}: {} ; on its own {}", match other { Ok(Ok(b)) => hex(&b[..b.len().min(32)]), Ok(Err(e)) => e.to_string(), Err(pn) => pn }, hex(&own[..own.len().min(32)])), json!({"site": "encode-pairs", "index": i})),
+                    }
+                }));
+        }
         let n = (refused.len() * followers.len()) as u64;
         sites.push(Site::new("encode-after-refusal", n,
             "3 packets whose encoding is refused part-way (PLH / HCP with the last handicap out of range, ISI with an interval beyond 16 bits) x every kind's B1 packet (both modes) encoded right afterwards on the same thread: the frame is the one the packet has on its own",
